@@ -1901,7 +1901,7 @@ func run(c *vf.Ctx) {
 	c.Require("switches_with_old_source_update_in_flight", total/20)
 	c.Require("switches_racing_free_writers", total/20)
 	c.Require("attaches_inside_zero_write_callback", total/100)
-	c.Require("attaches_racing_zero_write", max(total/2000, total/100*par/4))
+	c.Require("attaches_racing_zero_write", max(total/2000, total/100*par/10))
 }
 
 func main() { vf.Main("C14", "exploration", run, child) }
